@@ -188,6 +188,9 @@ Record mst := {
   m_run_lost : bool;                      (* some run ended (restart, disconnect, inactivity) *)
   m_exotic : bool;                        (* a tick reached an app harvest of a removed application incarnation:
                                              outside the lifecycle hypothesis, C03 checks are suspended *)
+  m_streak : list (Z * N * (nat * bool)); (* run, category |-> number of kept failures so far (an upper bound of every attempt counter) *)
+  m_owed : list (Z * N * Z);              (* run, category, unit: failed with a retryable status while the payload had attempts
+                                             left -- must be in the run's next request of that category (C02) *)
   m_viol : list (N * nat)                 (* violation code, step index *)
 }.
 
@@ -197,6 +200,10 @@ Definition V_FOREIGN : N := 102.          (* C01 C04: a request for run r carrie
 Definition V_LOST : N := 103.             (* C01: accepting collector, final flush done, accepted data never acknowledged *)
 Definition V_DEAD_RESENT : N := 201.      (* C02: data re-sent after acknowledgement or after a non-retryable failure *)
 Definition V_ATTEMPTS : N := 202.         (* C02: more than 1+5 (metrics) / 1+10 (events) requests carried the unit *)
+Definition V_NOT_RETRIED : N := 2030.     (* C02: 2030 + category: data that failed with a retryable status while attempts were left is
+                                             missing from the run's next request of that category (judged only for categories that
+                                             never exceeded their capacity in the history, see [monitor]) *)
+Definition V_NOT_FLUSHED : N := 5030.     (* C11: 5030 + category: data held for a live run is missing from the final requests *)
 Definition V_VALID : N := 301.            (* C03: RunIDValid differs from "the daemon holds that run" *)
 Definition V_TERMINAL_REPLY : N := 302.   (* C03: after 410 / invalid license the agent is told something else *)
 Definition V_TERMINAL_CONNECT : N := 303. (* C03: a connect is attempted after 410 / invalid license *)
@@ -211,21 +218,23 @@ Definition V_FINAL_DUP : N := 502.        (* C11: a unit of data in two final re
 Definition is_c03 (code : N) : bool := (300 <? code)%N && (code <? 400)%N.
 
 (* setters *)
-Definition w_out (m : mst) v := {| m_out := v; m_atts := m_atts m; m_runs := m_runs m; m_apps := m_apps m; m_gens := m_gens m; m_ahs := m_ahs m; m_clock := m_clock m; m_offered := m_offered m; m_acked := m_acked m; m_dead := m_dead m; m_sent := m_sent m; m_all_ok := m_all_ok m; m_run_lost := m_run_lost m; m_exotic := m_exotic m; m_viol := m_viol m |}.
-Definition w_atts (m : mst) v := {| m_out := m_out m; m_atts := v; m_runs := m_runs m; m_apps := m_apps m; m_gens := m_gens m; m_ahs := m_ahs m; m_clock := m_clock m; m_offered := m_offered m; m_acked := m_acked m; m_dead := m_dead m; m_sent := m_sent m; m_all_ok := m_all_ok m; m_run_lost := m_run_lost m; m_exotic := m_exotic m; m_viol := m_viol m |}.
-Definition w_runs (m : mst) v := {| m_out := m_out m; m_atts := m_atts m; m_runs := v; m_apps := m_apps m; m_gens := m_gens m; m_ahs := m_ahs m; m_clock := m_clock m; m_offered := m_offered m; m_acked := m_acked m; m_dead := m_dead m; m_sent := m_sent m; m_all_ok := m_all_ok m; m_run_lost := m_run_lost m; m_exotic := m_exotic m; m_viol := m_viol m |}.
-Definition w_apps (m : mst) v := {| m_out := m_out m; m_atts := m_atts m; m_runs := m_runs m; m_apps := v; m_gens := m_gens m; m_ahs := m_ahs m; m_clock := m_clock m; m_offered := m_offered m; m_acked := m_acked m; m_dead := m_dead m; m_sent := m_sent m; m_all_ok := m_all_ok m; m_run_lost := m_run_lost m; m_exotic := m_exotic m; m_viol := m_viol m |}.
-Definition w_gens (m : mst) v := {| m_out := m_out m; m_atts := m_atts m; m_runs := m_runs m; m_apps := m_apps m; m_gens := v; m_ahs := m_ahs m; m_clock := m_clock m; m_offered := m_offered m; m_acked := m_acked m; m_dead := m_dead m; m_sent := m_sent m; m_all_ok := m_all_ok m; m_run_lost := m_run_lost m; m_exotic := m_exotic m; m_viol := m_viol m |}.
-Definition w_ahs (m : mst) v := {| m_out := m_out m; m_atts := m_atts m; m_runs := m_runs m; m_apps := m_apps m; m_gens := m_gens m; m_ahs := v; m_clock := m_clock m; m_offered := m_offered m; m_acked := m_acked m; m_dead := m_dead m; m_sent := m_sent m; m_all_ok := m_all_ok m; m_run_lost := m_run_lost m; m_exotic := m_exotic m; m_viol := m_viol m |}.
-Definition w_clock (m : mst) v := {| m_out := m_out m; m_atts := m_atts m; m_runs := m_runs m; m_apps := m_apps m; m_gens := m_gens m; m_ahs := m_ahs m; m_clock := v; m_offered := m_offered m; m_acked := m_acked m; m_dead := m_dead m; m_sent := m_sent m; m_all_ok := m_all_ok m; m_run_lost := m_run_lost m; m_exotic := m_exotic m; m_viol := m_viol m |}.
-Definition w_offered (m : mst) v := {| m_out := m_out m; m_atts := m_atts m; m_runs := m_runs m; m_apps := m_apps m; m_gens := m_gens m; m_ahs := m_ahs m; m_clock := m_clock m; m_offered := v; m_acked := m_acked m; m_dead := m_dead m; m_sent := m_sent m; m_all_ok := m_all_ok m; m_run_lost := m_run_lost m; m_exotic := m_exotic m; m_viol := m_viol m |}.
-Definition w_acked (m : mst) v := {| m_out := m_out m; m_atts := m_atts m; m_runs := m_runs m; m_apps := m_apps m; m_gens := m_gens m; m_ahs := m_ahs m; m_clock := m_clock m; m_offered := m_offered m; m_acked := v; m_dead := m_dead m; m_sent := m_sent m; m_all_ok := m_all_ok m; m_run_lost := m_run_lost m; m_exotic := m_exotic m; m_viol := m_viol m |}.
-Definition w_dead (m : mst) v := {| m_out := m_out m; m_atts := m_atts m; m_runs := m_runs m; m_apps := m_apps m; m_gens := m_gens m; m_ahs := m_ahs m; m_clock := m_clock m; m_offered := m_offered m; m_acked := m_acked m; m_dead := v; m_sent := m_sent m; m_all_ok := m_all_ok m; m_run_lost := m_run_lost m; m_exotic := m_exotic m; m_viol := m_viol m |}.
-Definition w_sent (m : mst) v := {| m_out := m_out m; m_atts := m_atts m; m_runs := m_runs m; m_apps := m_apps m; m_gens := m_gens m; m_ahs := m_ahs m; m_clock := m_clock m; m_offered := m_offered m; m_acked := m_acked m; m_dead := m_dead m; m_sent := v; m_all_ok := m_all_ok m; m_run_lost := m_run_lost m; m_exotic := m_exotic m; m_viol := m_viol m |}.
-Definition w_all_ok (m : mst) v := {| m_out := m_out m; m_atts := m_atts m; m_runs := m_runs m; m_apps := m_apps m; m_gens := m_gens m; m_ahs := m_ahs m; m_clock := m_clock m; m_offered := m_offered m; m_acked := m_acked m; m_dead := m_dead m; m_sent := m_sent m; m_all_ok := v; m_run_lost := m_run_lost m; m_exotic := m_exotic m; m_viol := m_viol m |}.
-Definition w_run_lost (m : mst) v := {| m_out := m_out m; m_atts := m_atts m; m_runs := m_runs m; m_apps := m_apps m; m_gens := m_gens m; m_ahs := m_ahs m; m_clock := m_clock m; m_offered := m_offered m; m_acked := m_acked m; m_dead := m_dead m; m_sent := m_sent m; m_all_ok := m_all_ok m; m_run_lost := v; m_exotic := m_exotic m; m_viol := m_viol m |}.
-Definition w_exotic (m : mst) v := {| m_out := m_out m; m_atts := m_atts m; m_runs := m_runs m; m_apps := m_apps m; m_gens := m_gens m; m_ahs := m_ahs m; m_clock := m_clock m; m_offered := m_offered m; m_acked := m_acked m; m_dead := m_dead m; m_sent := m_sent m; m_all_ok := m_all_ok m; m_run_lost := m_run_lost m; m_exotic := v; m_viol := m_viol m |}.
-Definition w_viol (m : mst) v := {| m_out := m_out m; m_atts := m_atts m; m_runs := m_runs m; m_apps := m_apps m; m_gens := m_gens m; m_ahs := m_ahs m; m_clock := m_clock m; m_offered := m_offered m; m_acked := m_acked m; m_dead := m_dead m; m_sent := m_sent m; m_all_ok := m_all_ok m; m_run_lost := m_run_lost m; m_exotic := m_exotic m; m_viol := v |}.
+Definition w_out (m : mst) v := {| m_out := v; m_atts := m_atts m; m_runs := m_runs m; m_apps := m_apps m; m_gens := m_gens m; m_ahs := m_ahs m; m_clock := m_clock m; m_offered := m_offered m; m_acked := m_acked m; m_dead := m_dead m; m_sent := m_sent m; m_all_ok := m_all_ok m; m_run_lost := m_run_lost m; m_exotic := m_exotic m; m_streak := m_streak m; m_owed := m_owed m; m_viol := m_viol m |}.
+Definition w_atts (m : mst) v := {| m_out := m_out m; m_atts := v; m_runs := m_runs m; m_apps := m_apps m; m_gens := m_gens m; m_ahs := m_ahs m; m_clock := m_clock m; m_offered := m_offered m; m_acked := m_acked m; m_dead := m_dead m; m_sent := m_sent m; m_all_ok := m_all_ok m; m_run_lost := m_run_lost m; m_exotic := m_exotic m; m_streak := m_streak m; m_owed := m_owed m; m_viol := m_viol m |}.
+Definition w_runs (m : mst) v := {| m_out := m_out m; m_atts := m_atts m; m_runs := v; m_apps := m_apps m; m_gens := m_gens m; m_ahs := m_ahs m; m_clock := m_clock m; m_offered := m_offered m; m_acked := m_acked m; m_dead := m_dead m; m_sent := m_sent m; m_all_ok := m_all_ok m; m_run_lost := m_run_lost m; m_exotic := m_exotic m; m_streak := m_streak m; m_owed := m_owed m; m_viol := m_viol m |}.
+Definition w_apps (m : mst) v := {| m_out := m_out m; m_atts := m_atts m; m_runs := m_runs m; m_apps := v; m_gens := m_gens m; m_ahs := m_ahs m; m_clock := m_clock m; m_offered := m_offered m; m_acked := m_acked m; m_dead := m_dead m; m_sent := m_sent m; m_all_ok := m_all_ok m; m_run_lost := m_run_lost m; m_exotic := m_exotic m; m_streak := m_streak m; m_owed := m_owed m; m_viol := m_viol m |}.
+Definition w_gens (m : mst) v := {| m_out := m_out m; m_atts := m_atts m; m_runs := m_runs m; m_apps := m_apps m; m_gens := v; m_ahs := m_ahs m; m_clock := m_clock m; m_offered := m_offered m; m_acked := m_acked m; m_dead := m_dead m; m_sent := m_sent m; m_all_ok := m_all_ok m; m_run_lost := m_run_lost m; m_exotic := m_exotic m; m_streak := m_streak m; m_owed := m_owed m; m_viol := m_viol m |}.
+Definition w_ahs (m : mst) v := {| m_out := m_out m; m_atts := m_atts m; m_runs := m_runs m; m_apps := m_apps m; m_gens := m_gens m; m_ahs := v; m_clock := m_clock m; m_offered := m_offered m; m_acked := m_acked m; m_dead := m_dead m; m_sent := m_sent m; m_all_ok := m_all_ok m; m_run_lost := m_run_lost m; m_exotic := m_exotic m; m_streak := m_streak m; m_owed := m_owed m; m_viol := m_viol m |}.
+Definition w_clock (m : mst) v := {| m_out := m_out m; m_atts := m_atts m; m_runs := m_runs m; m_apps := m_apps m; m_gens := m_gens m; m_ahs := m_ahs m; m_clock := v; m_offered := m_offered m; m_acked := m_acked m; m_dead := m_dead m; m_sent := m_sent m; m_all_ok := m_all_ok m; m_run_lost := m_run_lost m; m_exotic := m_exotic m; m_streak := m_streak m; m_owed := m_owed m; m_viol := m_viol m |}.
+Definition w_offered (m : mst) v := {| m_out := m_out m; m_atts := m_atts m; m_runs := m_runs m; m_apps := m_apps m; m_gens := m_gens m; m_ahs := m_ahs m; m_clock := m_clock m; m_offered := v; m_acked := m_acked m; m_dead := m_dead m; m_sent := m_sent m; m_all_ok := m_all_ok m; m_run_lost := m_run_lost m; m_exotic := m_exotic m; m_streak := m_streak m; m_owed := m_owed m; m_viol := m_viol m |}.
+Definition w_acked (m : mst) v := {| m_out := m_out m; m_atts := m_atts m; m_runs := m_runs m; m_apps := m_apps m; m_gens := m_gens m; m_ahs := m_ahs m; m_clock := m_clock m; m_offered := m_offered m; m_acked := v; m_dead := m_dead m; m_sent := m_sent m; m_all_ok := m_all_ok m; m_run_lost := m_run_lost m; m_exotic := m_exotic m; m_streak := m_streak m; m_owed := m_owed m; m_viol := m_viol m |}.
+Definition w_dead (m : mst) v := {| m_out := m_out m; m_atts := m_atts m; m_runs := m_runs m; m_apps := m_apps m; m_gens := m_gens m; m_ahs := m_ahs m; m_clock := m_clock m; m_offered := m_offered m; m_acked := m_acked m; m_dead := v; m_sent := m_sent m; m_all_ok := m_all_ok m; m_run_lost := m_run_lost m; m_exotic := m_exotic m; m_streak := m_streak m; m_owed := m_owed m; m_viol := m_viol m |}.
+Definition w_sent (m : mst) v := {| m_out := m_out m; m_atts := m_atts m; m_runs := m_runs m; m_apps := m_apps m; m_gens := m_gens m; m_ahs := m_ahs m; m_clock := m_clock m; m_offered := m_offered m; m_acked := m_acked m; m_dead := m_dead m; m_sent := v; m_all_ok := m_all_ok m; m_run_lost := m_run_lost m; m_exotic := m_exotic m; m_streak := m_streak m; m_owed := m_owed m; m_viol := m_viol m |}.
+Definition w_all_ok (m : mst) v := {| m_out := m_out m; m_atts := m_atts m; m_runs := m_runs m; m_apps := m_apps m; m_gens := m_gens m; m_ahs := m_ahs m; m_clock := m_clock m; m_offered := m_offered m; m_acked := m_acked m; m_dead := m_dead m; m_sent := m_sent m; m_all_ok := v; m_run_lost := m_run_lost m; m_exotic := m_exotic m; m_streak := m_streak m; m_owed := m_owed m; m_viol := m_viol m |}.
+Definition w_run_lost (m : mst) v := {| m_out := m_out m; m_atts := m_atts m; m_runs := m_runs m; m_apps := m_apps m; m_gens := m_gens m; m_ahs := m_ahs m; m_clock := m_clock m; m_offered := m_offered m; m_acked := m_acked m; m_dead := m_dead m; m_sent := m_sent m; m_all_ok := m_all_ok m; m_run_lost := v; m_exotic := m_exotic m; m_streak := m_streak m; m_owed := m_owed m; m_viol := m_viol m |}.
+Definition w_exotic (m : mst) v := {| m_out := m_out m; m_atts := m_atts m; m_runs := m_runs m; m_apps := m_apps m; m_gens := m_gens m; m_ahs := m_ahs m; m_clock := m_clock m; m_offered := m_offered m; m_acked := m_acked m; m_dead := m_dead m; m_sent := m_sent m; m_all_ok := m_all_ok m; m_run_lost := m_run_lost m; m_exotic := v; m_streak := m_streak m; m_owed := m_owed m; m_viol := m_viol m |}.
+Definition w_streak (m : mst) v := {| m_out := m_out m; m_atts := m_atts m; m_runs := m_runs m; m_apps := m_apps m; m_gens := m_gens m; m_ahs := m_ahs m; m_clock := m_clock m; m_offered := m_offered m; m_acked := m_acked m; m_dead := m_dead m; m_sent := m_sent m; m_all_ok := m_all_ok m; m_run_lost := m_run_lost m; m_exotic := m_exotic m; m_streak := v; m_owed := m_owed m; m_viol := m_viol m |}.
+Definition w_owed (m : mst) v := {| m_out := m_out m; m_atts := m_atts m; m_runs := m_runs m; m_apps := m_apps m; m_gens := m_gens m; m_ahs := m_ahs m; m_clock := m_clock m; m_offered := m_offered m; m_acked := m_acked m; m_dead := m_dead m; m_sent := m_sent m; m_all_ok := m_all_ok m; m_run_lost := m_run_lost m; m_exotic := m_exotic m; m_streak := m_streak m; m_owed := v; m_viol := m_viol m |}.
+Definition w_viol (m : mst) v := {| m_out := m_out m; m_atts := m_atts m; m_runs := m_runs m; m_apps := m_apps m; m_gens := m_gens m; m_ahs := m_ahs m; m_clock := m_clock m; m_offered := m_offered m; m_acked := m_acked m; m_dead := m_dead m; m_sent := m_sent m; m_all_ok := m_all_ok m; m_run_lost := m_run_lost m; m_exotic := m_exotic m; m_streak := m_streak m; m_owed := m_owed m; m_viol := v |}.
 
 Definition viol (m : mst) (code : N) (i : nat) : mst :=
   if is_c03 code && m_exotic m then m
@@ -235,7 +244,7 @@ Definition viol_if (b : bool) (m : mst) (code : N) (i : nat) : mst := if b then 
 
 Definition m_init : mst :=
   {| m_out := []; m_atts := []; m_runs := []; m_apps := []; m_gens := []; m_ahs := []; m_clock := 0; m_offered := ([], PositiveMap.empty _);
-     m_acked := cempty; m_dead := cempty; m_sent := cempty; m_all_ok := true; m_run_lost := false; m_exotic := false; m_viol := [] |}.
+     m_acked := cempty; m_dead := cempty; m_sent := cempty; m_all_ok := true; m_run_lost := false; m_exotic := false; m_streak := []; m_owed := []; m_viol := [] |}.
 
 Definition ct_eqb (a b : N * Z) : bool := (fst a =? fst b)%N && (snd a =? snd b).
 Definition mem_ct (x : N * Z) (l : list (N * Z)) : bool := existsb (ct_eqb x) l.
@@ -347,6 +356,7 @@ Definition retry_status (f : fail) : bool := match f with FRetry => true | _ => 
 Definition retry_cat (c : N) : bool := (c =? 0)%N || is_event_idx c || (c =? 8)%N.
 
 Definition end_run (m : mst) (r : Z) : mst :=
+  let m := w_owed m (filter (fun o => negb (fst (fst o) =? r)) (m_owed m)) in
   match find_run r (m_runs m) with
   | Some x => w_run_lost (w_runs m (set_run {| mr_run := r; mr_owner := mr_owner x; mr_host := mr_host x;
                                                mr_hdr := mr_hdr x; mr_held := false; mr_caps := mr_caps x |} (m_runs m))) true
@@ -392,6 +402,14 @@ Definition touch (m : mst) (k : Z) : mst :=
 Definition gen_of (m : mst) (k : Z) : nat :=
   match find (fun g => fst g =? k) (m_gens m) with Some g => snd g | None => O end.
 
+(* number of kept failures (retryable status, retryable category, run held) per (run, category) so far; the
+   boolean is unused *)
+Definition streak_of (m : mst) (r : Z) (c : N) : nat * bool :=
+  match find (fun x => (fst (fst x) =? r) && (snd (fst x) =? c)%N) (m_streak m) with Some x => snd x | None => (O, false) end.
+Definition set_streak (m : mst) (r : Z) (c : N) (v : nat * bool) : mst :=
+  w_streak m ((r, c, v) :: filter (fun x => negb ((fst (fst x) =? r) && (snd (fst x) =? c)%N)) (m_streak m)).
+Definition attempts_limit (c : N) : nat := pred (attempt_bound c).    (* 5 for metrics, 10 for events *)
+
 (* a collector answer to the n-th outstanding request *)
 Definition m_reply (i : nat) (m : mst) (n : nat) (oc : outcome) (obs : ostep) : mst :=
   match nth_error (m_out m) n with
@@ -407,6 +425,17 @@ Definition m_reply (i : nat) (m : mst) (n : nat) (oc : outcome) (obs : ostep) : 
         | OFail f =>
             let keep := retry_status f && retry_cat (o_cat q) && held in
             let m1 := w_all_ok (if keep then m0 else w_dead m0 (cadd_all cts (m_dead m0))) false in
+            (* the attempt counter of the failing payload is at most the number of kept failures the run has had in this
+               category before (every increment of a container's counter stems from one failed payload merged into it;
+               a failed data-usage payload is merged into the metric table too): the first [limit] failures of a history
+               are certainly carried over, whatever the overlap of deliveries *)
+            let k := fst (streak_of m1 (o_run q) (o_cat q)) in
+            let m1 :=
+              if keep then
+                let m1 := set_streak m1 (o_run q) (o_cat q) (S k, false) in
+                if (o_kind q =? 2)%N && Nat.leb (S k) (attempts_limit (o_cat q))
+                then w_owed m1 (map (fun ct => (o_run q, fst ct, snd ct)) cts ++ m_owed m1) else m1
+              else m1 in
             if held then
               match f with
               | F410 => app_terminal (end_run m1 (o_run q)) (o_owner q) 1
@@ -422,6 +451,12 @@ Definition m_reply (i : nat) (m : mst) (n : nat) (oc : outcome) (obs : ostep) : 
       note_requests i m1 (os_reqs obs)
   | None => note_requests i m (os_reqs obs)
   end.
+
+(* does a harvest of type [ty] (the HarvestType bit mask) include category index c?  metrics, errors, slow SQLs,
+   traces and package lists travel with the default data (all of its bits), every event category has its own bit *)
+Definition cat_bit (c : N) : N :=
+  match c with 1 => 32 | 2 => 64 | 6 => 16 | 7 => 128 | 8 => 256 | _ => 527 end%N.
+Definition tick_includes (ty c : N) : bool := (N.land ty (cat_bit c) =? cat_bit c)%N.
 
 (* one step of the monitor: the operation, then the outputs observed for it *)
 Definition m_step (i : nat) (m : mst) (o : op) (obs : ostep) : mst :=
@@ -540,7 +575,21 @@ Definition m_step (i : nat) (m : mst) (o : op) (obs : ostep) : mst :=
             end
         | None => m
         end in
-      note_requests i m1 (os_reqs obs)
+      let m2 := note_requests i m1 (os_reqs obs) in
+      (* what was owed to this run in the categories this tick harvests must be in the requests of this step *)
+      match nth_error (m_ahs m) ah with
+      | Some h =>
+          let r := mh_run h in
+          if run_held m2 r then
+            let due (o : Z * N * Z) := (fst (fst o) =? r) && tick_includes ty (snd (fst o)) in
+            let sent (o : Z * N * Z) :=
+              existsb (fun q => (o_kind q =? 2)%N && (o_run q =? r) && (o_cat q =? snd (fst o))%N
+                                && existsb (fun t => unit_id (o_cat q) (o_run q) t =? snd o) (o_tags q)) (os_reqs obs) in
+            let m3 := fold_left (fun mm o => if due o && negb (sent o) then viol mm (V_NOT_RETRIED + snd (fst o))%N i else mm) (m_owed m2) m2 in
+            w_owed m3 (filter (fun o => negb (due o)) (m_owed m3))
+          else m2
+      | None => m2
+      end
   | OReply n oc => m_reply i m n oc obs
   | OReplyCat c oc =>
       let want (q : oreq) : bool :=
@@ -561,6 +610,30 @@ Definition m_step (i : nat) (m : mst) (o : op) (obs : ostep) : mst :=
       let all := concat (map units_of finals) in
       let dup := snd (fold_left (fun acc x => (cadd x (fst acc), snd acc || cmem x (fst acc))) all (cempty, false)) in
       let m3 := viol_if dup m2 V_FINAL_DUP i in
+      (* what is still owed to a held run of an application that is not inactive must be in the final requests *)
+      let live (r : Z) : bool :=
+        run_held m3 r &&
+        match find_run r (m_runs m3) with
+        | Some x => match find_app (mr_owner x) (m_apps m3) with
+                    | Some a => negb (600 <? m_clock m3 - ma_last_activity a)
+                    | None => false end
+        | None => false end in
+      let in_finals (o : Z * N * Z) :=
+        existsb (fun q => (o_run q =? fst (fst o)) && (o_cat q =? snd (fst o))%N
+                          && existsb (fun t => unit_id (o_cat q) (o_run q) t =? snd o) (o_tags q)) finals in
+      let m3 := fold_left (fun mm o => if live (fst (fst o)) && negb (in_finals o) then viol mm (V_NOT_RETRIED + snd (fst o))%N i else mm)
+                          (m_owed m3) m3 in
+      let m3 := w_owed m3 [] in
+      (* C11: every unit submitted under a live held run that has neither been acknowledged nor become dead (non-retryable
+         failure), is not in flight, and whose (run, category) has not had enough failures for anything to have been given
+         up for its attempts, is in the final requests (judged for categories within capacity, packages excluded) *)
+      let m3 := fold_left (fun mm o =>
+                  let '(r, c, u) := o in
+                  if live r && negb (c =? 9)%N && negb (cmem (c, u) (m_acked mm)) && negb (cmem (c, u) (m_dead mm))
+                     && negb (existsb (fun q => mem_ct (c, u) (units_of q)) (m_out mm))
+                     && Nat.leb (fst (streak_of mm r c)) (attempts_limit c)
+                     && negb (in_finals o)
+                  then viol mm (V_NOT_FLUSHED + c)%N i else mm) (fst (m_offered m3)) m3 in
       (* acknowledge the final requests the collector accepted *)
       fold_left (fun mm q =>
                    let c := match o_cat q with 0%N => CMetrics | 1%N => CCustom | 2%N => CErrEv | 3%N => CErrors | 4%N => CSlow
@@ -593,4 +666,10 @@ Definition monitor (ops : list op) (obs : list ostep) (complete_cats : list N) :
   let m := m_run 0 m_init ops obs in
   let ended := existsb (fun s => os_exited s) obs in
   let lost := if ended && m_all_ok m && negb (m_run_lost m) then lost_units m complete_cats else [] in
-  m_viol m ++ map (fun _ => (V_LOST, length ops)) (firstn 1 lost).
+  let judged (v : N * nat) : list (N * nat) :=
+    if (V_NOT_RETRIED <=? fst v)%N && (fst v <? V_NOT_RETRIED + 10)%N
+    then (if existsb (N.eqb (fst v - V_NOT_RETRIED)) complete_cats then [(203%N, snd v)] else [])
+    else if (V_NOT_FLUSHED <=? fst v)%N && (fst v <? V_NOT_FLUSHED + 10)%N
+    then (if existsb (N.eqb (fst v - V_NOT_FLUSHED)) complete_cats then [(503%N, snd v)] else [])
+    else [v] in
+  concat (map judged (m_viol m)) ++ map (fun _ => (V_LOST, length ops)) (firstn 1 lost).
